@@ -42,6 +42,29 @@ class It(A):
         return iter((self.x, self.y))
 
 
+@dataclass
+class D0(A):
+    """A class of the hierarchy that customises subclass creation and does not call super().__init_subclass__()."""
+
+    def __init_subclass__(cls, **kwargs):
+        cls.registered_by_d0 = True
+
+
+@dataclass
+class D1(D0):
+    pass
+
+
+def _make():
+    import dataclasses as _dc
+    k = _dc.make_dataclass("MD", [], bases=(A,))       # created by a factory: its module is assigned after creation
+    k.__module__ = __name__
+    return k
+
+
+MD = _make()
+
+
 class MyUUID(uuid.UUID):
     """Neither a SubclassJSONSerializer nor registered - but a subclass of a type the library registers."""
 
